@@ -552,7 +552,7 @@ func (s *writer) getQueuedPackets() vlpersistence.PersistedPackets {
 				pkt = tp
 			}
 		case *unacknowledged:
-			if pb, ok := p.(*mqttp.Publish); ok && pb.QoS() == mqttp.QoS1 {
+			if pb, ok := tp.IFace.(*mqttp.Publish); ok {
 				pb.SetDup(true)
 			}
 
